@@ -525,6 +525,125 @@ theorem crash_torn (s : AStore) (c : MemStore) (clock : Nat) (hi : Option Nat) (
   | reopen => simp [isSave] at hsave
   | reset => simp [isSave] at hsave
 
+/-! ## cuts inside the other writes: body (harmless, the index line is not there yet), session file (not part of the view) -/
+
+theorem crashImage_mid (d : DFS) (ps : List Prim) (i cut : Nat) (f : Ext) (off : Nat) (data : Bytes)
+    (h : ps[i]? = some (.write f off data)) (hc : cut ≠ 0) :
+    crashImage d ps i cut .process = (applyPrimD (applyPrimsD d (ps.take i)) (.write f off (data.take cut))).vol := by
+  simp [crashImage, h, hc]
+
+theorem viewOf_session_write (fs : FS) (off : Nat) (x : Bytes) : viewOf (applyPrim fs (.write .session off x)) = viewOf fs := by
+  obtain ⟨a, b, se, sn, tg⟩ := fs
+  cases se <;> rfl
+
+theorem torn_body (pm qm : List Bytes) (H B m : Bytes) (ct S T : Nat) (rest : List Prim) (qS : Int)
+    (hS : S ≤ maxInt) (hT : T ≤ maxInt) (tH : dropTorn H = H)
+    (I1 : ∀ X : Bytes, fileIterate H (B ++ X) 0 (maxInt : Int) 0 = (pm, IterEnd.ok))
+    (hq : qS = S ∨ qS = (S : Int) + 1) (cut : Nat) :
+    Concl pm qm S qS T T (viewOf (crashImage ⟨goodFS H B ct S T, goodFS H B ct S T⟩
+      ([.write .body B.length m] ++ rest) 0 cut .process)) := by
+  have c1 := counterOf_fmt S hS
+  have c2 := counterOf_fmt T hT
+  have I0 := I1 []
+  rw [List.append_nil] at I0
+  by_cases hc : cut = 0
+  · subst hc
+    simp [crashImage, applyPrimsD, goodFS, viewOf_mk, Concl, c1, c2, tH, I0]
+    rcases hq with rfl | rfl <;> (intros; omega)
+  · simp [crashImage, hc, applyPrimsD, applyPrimD, applyPrim, FS.get, FS.set, goodFS, viewOf_mk, Concl, writeAt_end, c1, c2, tH, I1]
+    rcases hq with rfl | rfl <;> (intros; omega)
+
+def isHBWrite : Prim → Bool
+  | .write f _ _ => f == .header || f == .body
+  | _ => false
+
+theorem no_hb_write (ps : List Prim) (hall : (ps.all fun p => !isHBWrite p) = true) (i : Nat) (f : Ext) (off : Nat) (data : Bytes)
+    (h : ps[i]? = some (.write f off data)) : f ≠ .header ∧ f ≠ .body := by
+  have hm := List.mem_of_getElem? h
+  have := List.all_eq_true.1 hall _ hm
+  cases f <;> simp [isHBWrite] at this <;> simp
+
+
+theorem setSeq_no_hbw (sync : Bool) (f : Ext) (n : Int) (hf : f = .sender ∨ f = .target) :
+    ((setSeqNumPrims sync f n).all fun p => !isHBWrite p) = true := by
+  rcases hf with rfl | rfl <;> cases sync <;> rfl
+
+/-- where an operation writes the header or the body: only `SaveMessage` does, body first (primitive 0), index line second -/
+theorem hb_write_pos (s : AStore) (c : MemStore) (clock : Nat) (hi : Option Nat) (ents : List Ent) (B : Bytes) (o : Op)
+    (h : FileR s ⟨⟨c, true, true⟩, goodFS (renderH ents) B c.ctime s.sender s.target, clock⟩ hi ents B)
+    (i : Nat) (f : Ext) (off : Nat) (data : Bytes)
+    (hg : (fileOpPrims ⟨c, true, true⟩ (goodFS (renderH ents) B c.ctime s.sender s.target) clock o).2.1[i]? = some (.write f off data)) :
+    (f = .body → isSave o = true ∧ i = 0) ∧ (f = .header → isSave o = true ∧ i = 1) := by
+  have hS := h.fits.1
+  have hT := h.fits.2.1
+  have hH := renderH_endsNL ents
+  have none_of : ∀ ps : List Prim, (ps.all fun p => !isHBWrite p) = true → ps[i]? = some (.write f off data) →
+      (f = .body → isSave o = true ∧ i = 0) ∧ (f = .header → isSave o = true ∧ i = 1) := by
+    intro ps hall hgi
+    have := no_hb_write ps hall i f off data hgi
+    exact ⟨fun e => absurd e this.2, fun e => absurd e this.1⟩
+  cases o with
+  | setS n => exact none_of _ (setSeq_no_hbw _ _ _ (Or.inl rfl)) hg
+  | setT n => exact none_of _ (setSeq_no_hbw _ _ _ (Or.inr rfl)) hg
+  | incS => exact none_of _ (setSeq_no_hbw _ _ _ (Or.inl rfl)) hg
+  | incT => exact none_of _ (setSeq_no_hbw _ _ _ (Or.inr rfl)) hg
+  | get b e => exact none_of _ rfl hg
+  | iter b e k => exact none_of _ rfl hg
+  | refresh =>
+    refine none_of _ ?_ hg
+    simp only [fileOpPrims, refreshOp_prims_good _ _ B c.ctime s.sender s.target _ hS hT hH, List.all_append,
+      setSeq_no_hbw _ _ _ (Or.inl rfl), setSeq_no_hbw _ _ _ (Or.inr rfl)]
+    rfl
+  | reopen =>
+    refine none_of _ ?_ hg
+    simp only [fileOpPrims, refreshOp_prims_good _ _ B c.ctime s.sender s.target _ hS hT hH, List.all_append,
+      setSeq_no_hbw _ _ _ (Or.inl rfl), setSeq_no_hbw _ _ _ (Or.inr rfl)]
+    rfl
+  | reset =>
+    refine none_of _ ?_ hg
+    have hrm := apply_remove_all (goodFS (renderH ents) B c.ctime s.sender s.target) true
+    simp only [fileOpPrims, resetOp, hrm, refreshOp_prims_fresh, List.all_append,
+      setSeq_no_hbw _ _ _ (Or.inl rfl), setSeq_no_hbw _ _ _ (Or.inr rfl)]
+    rfl
+  | save n m =>
+    simp only [fileOpPrims, saveMessagePrims, syncBH, if_true, List.cons_append, List.nil_append] at hg
+    rcases i with _ | _ | _ | _ | i <;> simp at hg <;> (obtain ⟨rfl, _⟩ := hg) <;> simp [isSave]
+  | saveIncr n m =>
+    simp only [fileOpPrims, saveMessagePrims, syncBH, if_true, List.cons_append, List.nil_append, setSeqNumPrims, syncIf] at hg
+    rcases i with _ | _ | _ | _ | _ | _ | i <;> simp at hg <;> (obtain ⟨rfl, _⟩ := hg) <;> simp [isSave]
+
+
+theorem crash_torn_body (s : AStore) (c : MemStore) (clock : Nat) (hi : Option Nat) (ents : List Ent) (B : Bytes) (o : Op)
+    (h : FileR s ⟨⟨c, true, true⟩, goodFS (renderH ents) B c.ctime s.sender s.target, clock⟩ hi ents B)
+    (hsave : isSave o = true) (cut : Nat) :
+    Concl (values s.msgs) (values (s.step o).1.msgs) s.sender (s.step o).1.sender s.target (s.step o).1.target
+      (viewOf (crashImage ⟨goodFS (renderH ents) B c.ctime s.sender s.target, goodFS (renderH ents) B c.ctime s.sender s.target⟩
+        (fileOpPrims ⟨c, true, true⟩ (goodFS (renderH ents) B c.ctime s.sender s.target) clock o).2.1 0 cut .process)) := by
+  obtain ⟨_, _, hcs, hct, hfr, hm, hbody, hentsb, hblen, hso, hb, hfit⟩ := h
+  have hS := hfit.1
+  have hT := hfit.2.1
+  have tH := dropTorn_of_endsNL _ (renderH_endsNL ents)
+  have I1 : ∀ X : Bytes, fileIterate (renderH ents) (B ++ X) 0 (maxInt : Int) 0 = (values s.msgs, IterEnd.ok) := by
+    intro X
+    rw [fileIterate_whole (B ++ X) ents (fun e he => take_drop_append B X e.msg e.off (hbody e he)) hentsb (hm ▸ hso), hm]
+  cases o with
+  | save n m =>
+    simp only [fileOpPrims, saveMessagePrims, AStore.step, goodFS_body, len_some]
+    exact torn_body _ _ _ B m c.ctime s.sender s.target _ _ hS hT tH I1 (Or.inl rfl) cut
+  | saveIncr n m =>
+    have ec : ((s.sender + 1 : Nat) : Int) = (s.sender : Int) + 1 := by omega
+    simp only [fileOpPrims, saveMessagePrims, AStore.step, goodFS_body, len_some, List.append_assoc, List.cons_append, List.nil_append, ec]
+    exact torn_body _ _ _ B m c.ctime s.sender s.target _ _ hS hT tH I1 (Or.inr rfl) cut
+  | setS n => simp [isSave] at hsave
+  | setT n => simp [isSave] at hsave
+  | incS => simp [isSave] at hsave
+  | incT => simp [isSave] at hsave
+  | get b e => simp [isSave] at hsave
+  | iter b e k => simp [isSave] at hsave
+  | refresh => simp [isSave] at hsave
+  | reopen => simp [isSave] at hsave
+  | reset => simp [isSave] at hsave
+
 /-! ## from histories to states -/
 
 theorem step_sync (w : FileW) (o : Op) : (w.step o).1.st.sync = w.st.sync := by
@@ -567,9 +686,13 @@ theorem fitsRun_append (ops : List Op) (o : Op) : ∀ s, FitsRun s (ops ++ [o]) 
 def Conclusion (pre post : AStore) (v : Int × Int × (List Bytes × IterEnd)) : Prop :=
   Concl (values pre.msgs) (values post.msgs) pre.sender post.sender pre.target post.target v
 
+/-- the crash point is admissible for `C17_partial`: not inside the in-place rewrite of a counter file -/
+def NotInCounterWrite (ps : List Prim) (i cut : Nat) : Prop :=
+  cut = 0 ∨ ∃ f off data, ps[i]? = some (.write f off data) ∧ f ≠ .sender ∧ f ≠ .target
+
 theorem crash_good (s : AStore) (w : FileW) (hi : Option Nat) (ents : List Ent) (B : Bytes) (o : Op)
     (h : FileR s w hi ents B) (hsync : w.st.sync = true) (ha : ascendingOk hi o = true) (hfit' : Fits (s.step o).1)
-    (i cut : Nat) (mode : Mode) (hpt : mode = .process → cut = 0 ∨ (isSave o = true ∧ i = 1)) :
+    (i cut : Nat) (mode : Mode) (hpt : mode = .process → NotInCounterWrite (fileOpPrims w.st w.fs w.clock o).2.1 i cut) :
     Conclusion s (s.step o).1 (recoveredView (crashImage ⟨w.fs, w.fs⟩ (fileOpPrims w.st w.fs w.clock o).2.1 i cut mode)) := by
   obtain ⟨⟨c, sync, opened⟩, fs, clock⟩ := w
   have hop := h.opened
@@ -580,11 +703,26 @@ theorem crash_good (s : AStore) (w : FileW) (hi : Option Nat) (ents : List Ent) 
   have ht := allPre_take _ _ _ hall i
   rw [recoveredView_eq]
   cases mode with
-  | process =>
-    rcases hpt rfl with h0 | ⟨hsv, hi1⟩
-    · rw [h0, crashImage_boundary]; exact ht.1
-    · subst hi1; exact crash_torn s c clock hi ents B o h ha hfit' hsv cut
   | power => rw [crashImage_power]; exact ht.2
+  | process =>
+    rcases hpt rfl with h0 | ⟨f, off, data, hg, hns, hnt⟩
+    · rw [h0, crashImage_boundary]; exact ht.1
+    · by_cases hc : cut = 0
+      · rw [hc, crashImage_boundary]; exact ht.1
+      · have hpos := hb_write_pos s c clock hi ents B o h i f off data hg
+        cases f with
+        | sender => exact absurd rfl hns
+        | target => exact absurd rfl hnt
+        | session =>
+          rw [crashImage_mid _ _ i cut .session off data hg hc]
+          show Concl _ _ _ _ _ _ (viewOf (applyPrim _ _))
+          rw [viewOf_session_write]; exact ht.1
+        | header =>
+          obtain ⟨hsv, hi1⟩ := hpos.2 rfl
+          subst hi1; exact crash_torn s c clock hi ents B o h ha hfit' hsv cut
+        | body =>
+          obtain ⟨hsv, hi0⟩ := hpos.1 rfl
+          subst hi0; exact crash_torn_body s c clock hi ents B o h hsv cut
 
 /-! ## with syncing on, everything an operation wrote is durable when it returns -/
 
